@@ -150,11 +150,21 @@ fn exec_run(spec: RunSpec<'_>) -> RunOut {
     let run = spec.scen.run;
     let RunSpec { seed, profile, thorough, replay, tracing, .. } = spec;
     let own = spec.own.to_string();
+    let desc = crate::alloc::RunDesc {
+        property: own.clone(),
+        scenario: spec.scen.name,
+        seed,
+        profile: profile.name(),
+        tier: if thorough { "thorough" } else { "quick" },
+        verif_dir: verif_dir(),
+        replay: replay.clone(),
+    };
     let h = std::thread::Builder::new()
         .name("simrun".into())
         .stack_size(32 << 20)
         .spawn(move || {
             ctx::begin_run(seed, replay, profile, thorough, tracing);
+            crate::alloc::enter_run(desc);
             let r = std::panic::catch_unwind(std::panic::AssertUnwindSafe(run));
             let sim_time = web_time::sim::elapsed();
             let steps = exec::steps();
@@ -162,6 +172,7 @@ fn exec_run(spec: RunSpec<'_>) -> RunOut {
             let timers = futures_timer::sim::stats();
             // Dropping the units may run destructors of code under test: keep it inside a guard.
             let _ = std::panic::catch_unwind(std::panic::AssertUnwindSafe(exec::teardown));
+            crate::alloc::leave_run();
             let c = ctx::end_run();
             let mut vs: Vec<Violation> = c.soft.iter().filter(|v| !foreign_clause(&own, &v.clause)).cloned().collect();
             let r = match r {
@@ -728,13 +739,14 @@ fn cmd_replay(checks: &[Check], args: &[String]) -> i32 {
         eprintln!("replay: unknown scenario {sname}");
         return 2;
     };
-    let choices: Vec<u32> = v["choices"].as_array().map(|a| a.iter().map(|x| x.as_u64().unwrap_or(0) as u32).collect()).unwrap_or_default();
+    // "choices": null = regenerate the run from its seed (written when the process had to stop inside the run)
+    let choices: Option<Vec<u32>> = v["choices"].as_array().map(|a| a.iter().map(|x| x.as_u64().unwrap_or(0) as u32).collect());
     let seed = v["seed"].as_u64().unwrap_or(0);
     let profile = profile_from(v["profile"].as_str().unwrap_or("none"));
     let thorough = v["tier"].as_str() == Some("thorough");
     let clause = v["clause"].as_str().unwrap_or("").to_string();
     warmup(check);
-    let out = exec_run(RunSpec { own: check.id, scen, seed, profile, thorough, replay: Some(choices), tracing: true });
+    let out = exec_run(RunSpec { own: check.id, scen, seed, profile, thorough, replay: choices, tracing: true });
     for l in &out.trace {
         println!("{l}");
     }
